@@ -118,7 +118,7 @@ impl Display for Formatted<'_, BinOp> {
             self.value.a.format(self.format).fmt(out)?;
             self.value.b.format(self.format).fmt(out)
         } else {
-            use Operator::{Div, Minus, Plus};
+            use Operator::{Div, Minus, Modulo, Multiply, Plus};
             fn is_op(v: &Value) -> Option<Operator> {
                 match v {
                     Value::BinOp(op) => Some(op.op),
@@ -161,7 +161,18 @@ impl Display for Formatted<'_, BinOp> {
                 }
                 (op, v) => (op, v.clone()),
             };
-            self.value.a.format(self.format).fmt(out)?;
+            // A sum as left operand of a product needs parentheses.
+            let a_is_sum = matches!(
+                &self.value.a,
+                Value::BinOp(a) if matches!(a.op, Plus | Minus),
+            );
+            if a_is_sum && matches!(op, Multiply | Div | Modulo) {
+                out.write_char('(')?;
+                self.value.a.format(self.format).fmt(out)?;
+                out.write_char(')')?;
+            } else {
+                self.value.a.format(self.format).fmt(out)?;
+            }
             if self.value.s1 {
                 out.write_char(' ')?;
             }
